@@ -936,6 +936,19 @@ class Engine(object):
             raise Unsupported("subscript %s[%s]" % (type(base).__name__, type(idx).__name__))
         return outs
 
+    def const_key(self, e, st):
+        """A subscript key that is a string constant, or a variable currently bound to one (loop over a constant tuple)"""
+        if isinstance(e, ast.Constant) and isinstance(e.value, str):
+            return e.value
+        if isinstance(e, ast.Name):
+            try:
+                v = st.lookup(e.id)
+            except Exception:
+                return None
+            if isinstance(v, VStr) and z3.is_string_value(v.z):
+                return v.z.as_string()
+        return None
+
     def slot_path(self, e):
         """`xs[i]` (two plain names) when the block contract declares an access path through it, else None"""
         c = self.contract
@@ -1996,12 +2009,13 @@ class Engine(object):
                         if t.id in f:
                             del f[t.id]
                             break
-                elif isinstance(t, ast.Subscript) and isinstance(t.slice, ast.Constant) and isinstance(t.slice.value, str):
+                elif isinstance(t, ast.Subscript) and self.const_key(t.slice, st) is not None:
                     outs_d = []
+                    key_ = self.const_key(t.slice, st)
                     for s_, base in self.eval(t.value, st):
                         if isinstance(base, VRef) and isinstance(s_.heap[base.rid], RecordObj):
                             o = s_.heap[base.rid]
-                            k = t.slice.value
+                            k = key_
                             if k not in o.fields:
                                 continue  # KeyError
                             p_, v_ = o.fields[k]
